@@ -102,6 +102,19 @@ class BatchedMonitor(taps.Monitor):
             e = tx.maxdiff(r, t_res)
             ctx.fail("result_differs_from_a_history_free_twin", cls=cls, mech=bsk, err=e, dtype="%s_vs_%s" % (r.dtype, np.asarray(t_res).dtype))
             return
+        # ... and, leaving the library's own code path, the map its parameters define (an independent evaluation)
+        try:
+            from vf import refmap
+            import menpo.transform as _mt
+            ref_ = refmap.reference_apply(t, st["x"]) if np.isfinite(st["x"]).all() else None
+        except Exception:
+            ref_ = None
+        if ref_ is not None and ref_[1].any() and ref_[0].shape == r.shape:
+            ctx.tap("independent_reference_map", "calls"); ctx.tap("independent_reference_map", "checked")
+            sc_ = max(1.0, float(np.abs(ref_[0][ref_[1]]).max()))
+            e_ = tx.maxdiff(np.asarray(r, dtype=float)[ref_[1]], ref_[0][ref_[1]])
+            if not (e_ <= (1e-6 if isinstance(t, _mt.ThinPlateSplines) or hasattr(t, "transforms") else 1e-8) * sc_ * (4.0 if r.dtype == np.float32 else 1.0) + (1e-5 * sc_ if st["x"].dtype == np.float32 else 0.0)):
+                ctx.fail("result_differs_from_the_map_the_parameters_define", cls=cls, mech=bsk, err=e_)
         if st["bs"] is not None:
             try:
                 unb = np.asarray(recipe()._apply_batched(st["x"].copy(), None))
@@ -197,14 +210,20 @@ def reparameterise(rng, who, kind, d, old_recipe, alone=True):
             return rec
         reg = tx.CHAIN_PARTS.get(id(who))
         parts = reg[1] if reg is not None and reg[0] is who else None
-        if parts is not None and alone and isinstance(parts[0][0], (AbstractPWA, mt.ThinPlateSplines)) and id(who) in TWINS and len(TWINS[id(who)]) == 2:
-            # the first member of the chain (a warp) is retargeted through the object the caller still holds: the chain is then
-            # the chain of the retargeted warp and the other members
-            link = parts[0][0]
-            rec_link = reparameterise(rng, link, type(link).__name__, d, parts[0][1])
-            if rec_link is None or rec_link == "drop":
+        if parts is not None and alone and id(who) in TWINS and len(TWINS[id(who)]) == 2:
+            # a member of the chain (a warp, or a homogeneous member) gets new parameters through the object the caller still
+            # holds: the chain is then the chain of the updated member and the other members
+            j_ = int(rng.integers(0, len(parts)))
+            link = parts[j_][0]
+            if not isinstance(link, (AbstractPWA, mt.ThinPlateSplines, mt.Homogeneous)) or type(link).__name__ not in tx.HOMOG + ["CachedPWA", "PythonPWA", "ThinPlateSplines"]:
                 return None
-            rest = [p[1] for p in parts[1:]]
+            rec_link = reparameterise(rng, link, type(link).__name__, d, parts[j_][1], alone=False)
+            if rec_link == "drop":
+                return "drop"        # (the member now holds parameters no recipe stands for: the chain leaves the judged set)
+            if rec_link is None:
+                return None
+            recs_ = [p[1] for p in parts]
+            recs_[j_] = rec_link
             assemble = reg[2]
             if rng.random() < 0.5:
                 # (in between, the warp is used on its own)
@@ -212,7 +231,7 @@ def reparameterise(rng, who, kind, d, old_recipe, alone=True):
                     link.apply(domain_points(rng, link, d, 3, 0.0))
                 except Exception:
                     pass
-            return lambda: assemble([rec_link()] + [r() for r in rest])
+            return lambda: assemble([r() for r in recs_])
         if not isinstance(who, mt.Homogeneous) or kind in ("TransformChain", "WithDims"):
             return None
         t2, recipe2 = tx.make(rng, kind, d)
